@@ -31,7 +31,7 @@ ASSUMPTIONS = [
     "read(0) has only a weak oracle (no data, no b'', cursor unchanged): the statement does not define it",
     "sub-sample instants resolve to either neighbouring sample, applied before 'negative counts from the end'",
     "streams fed to file/stdin sources are whole samples (mid-sample ends are outside the statement)",
-    "close/open cycles are driven on the buffer source only (the statement defines them only there); file sources are closed once, then read to observe the I/O error",
+    "re-opening a raw/wav FILE source starts a new pass over the file (what opening a file means; the statement spells the restart out only for the buffer source); the stdin source is closed once, then read to observe the I/O error",
     "held means: held on the executions listed in coverage",
 ]
 IOERR = (AudioIOError, OSError)
@@ -70,35 +70,7 @@ class Model:
 
 
 # ---- running one history on one real source -------------------------------------
-class PipeStdin:
-    """A real pipe wrapped in io.BufferedReader (what sys.stdin.buffer is), fed by a dribbling writer thread."""
-
-    def __init__(self, data, rng):
-        r, w = os.pipe()
-        self.buffer = io.BufferedReader(io.FileIO(r, "rb", closefd=True))
-        chunks = []
-        i = 0
-        while i < len(data):
-            k = rng.randint(1, 7)
-            chunks.append(data[i : i + k])
-            i += k
-
-        def feed():
-            try:
-                for c in chunks:
-                    os.write(w, c)
-            finally:
-                os.close(w)
-
-        self.thread = threading.Thread(target=feed, daemon=True)
-        self.thread.start()
-
-    def close(self):
-        self.thread.join(5)
-        try:
-            self.buffer.close()
-        except Exception:
-            pass
+from ..stdin import PipeStdin  # noqa: E402  (a real pipe + BufferedReader + fileno, fed in 1-7-byte chunks)
 
 
 def make_source(kind, data, fmt, tmpdir, rng):
@@ -134,7 +106,7 @@ def applicable(kind, op):
     name = op[0]
     if kind == "buffer":
         return True
-    if name in ("pos", "pos_s", "pos_ms", "rewind", "getpos", "reopen"):
+    if name in ("pos", "pos_s", "pos_ms", "rewind", "getpos"):
         return False
     if kind == "stdin" and name == "read" and (op[1] is None or op[1] < 0):
         return False
@@ -168,9 +140,9 @@ def run_history(ctx, kind, data, fmt, ops, tmpdir, rng):
             elif name == "close":
                 src.close()
                 m.open = False
-                m.pos = 0
-                if kind != "buffer":
-                    closed_for_good = True
+                m.pos = 0  # buffer: stated; raw/wav file: re-opening a file starts a new pass over it
+                if kind == "stdin":
+                    closed_for_good = True  # a pipe cannot be read twice
             elif name == "read":
                 exp = m.read(op[1])
                 try:
